@@ -1,6 +1,7 @@
 package props
 
 import (
+	"github.com/circlefin/noble-cctp/x/cctp/types"
 	"encoding/hex"
 	"fmt"
 	"math/big"
@@ -267,6 +268,22 @@ func strictVerdict(id string, s *sim.Step) *Viol {
 		return viol(id, s.Idx, "transaction must succeed (all documented conditions hold) but failed: "+s.Op.Label, "success", "failure: "+s.Res.Log)
 	case s.Exp.V == sim.MustFail && s.OK():
 		return viol(id, s.Idx, "transaction must fail (false: "+strings.Join(s.Exp.Why, ",")+") but succeeded: "+s.Op.Label, "failure", "success")
+	}
+	return nil
+}
+
+// recvResponses: a receive that went through says so in its response (success = true).
+func recvResponses(id string, s *sim.Step) *Viol {
+	if s.Op.Kind != "tx" || !s.OK() {
+		return nil
+	}
+	for i, m := range s.Msgs {
+		if _, ok := m.(*types.MsgReceiveMessage); !ok || i >= len(s.Res.Resps) {
+			continue
+		}
+		if r, ok := s.Res.Resps[i].(*types.MsgReceiveMessageResponse); ok && !r.Success {
+			return viol(id, s.Idx, "response of a receive that was executed and committed", "success=true", "success=false")
+		}
 	}
 	return nil
 }
